@@ -12,7 +12,7 @@ from .. import leanproj, pipeline, corr, evalcorr
 from ..common import Rng, seed
 from ..corr import build_model
 
-HEAD = 'Binde "Duden/Ausgabe" ein.\nBinde "Duden/Listen" ein.\nBinde "Duden/Texte" ein.\nBinde "Duden/Sortierung" ein.\n\n'
+HEAD = 'Binde "Duden/Ausgabe" ein.\nBinde "Duden/Listen" ein.\nBinde "Duden/Texte" ein.\nBinde "Duden/Sortierung" ein.\nBinde "Duden/Mathe" ein.\n\n'
 CHARS = [0x61, 0x62, 0x20, 0x2C, 0xE4, 0x20AC, 0x1F600, 0x41, 0x5A, 0x7A]
 
 
@@ -177,6 +177,22 @@ def cases(rng, per_op):
                 "Der Text t ist %s.\nDer Text u ist %s.\nDie Zahl v ist t mit u verglichen.\n" % (T, lit_text(w)) +
                 'Wenn v gleich 0 ist, Schreibe "0" auf eine Zeile.\nWenn v größer als 0 ist, Schreibe "+" auf eine Zeile.\nWenn v kleiner als 0 ist, Schreibe "-" auf eine Zeile.\n',
                 lambda x: x + "\n")
+        # numbers (Duden/Mathe)
+        pool = [0, 1, -1, 2, 7, -7, 12, 18, 100, 360, 97, 2 ** 31]
+        a, b, c3 = pool[rng.below(len(pool))], pool[rng.below(len(pool))], pool[rng.below(len(pool))]
+        nd = "Die Zahl a ist %s.\nDie Zahl b ist %s.\nDie Zahl d ist %s.\n" % (lit_int(a), lit_int(b), lit_int(c3))
+        add("max2", "duden max2 %d %d" % (a, b), nd + p_scalar("die größere Zahl von a und b"), lambda x: x + "\n")
+        add("min2", "duden min2 %d %d" % (a, b), nd + p_scalar("die kleinere Zahl von a und b"), lambda x: x + "\n")
+        add("max3", "duden max3 %d %d %d" % (a, b, c3), nd + p_scalar("die größere Zahl von a, b und d"), lambda x: x + "\n")
+        add("min3", "duden min3 %d %d %d" % (a, b, c3), nd + p_scalar("die kleinere Zahl von a, b und d"), lambda x: x + "\n")
+        add("sign", "duden sign %d" % a, nd + p_scalar("das Vorzeichen von a"), lambda x: x + "\n")
+        pa, pb = abs(a) % 1000 + 1, abs(b) % 1000 + 1
+        pd = "Die Zahl a ist %d.\nDie Zahl b ist %d.\n" % (pa, pb)
+        add("ggT", "duden ggT %d %d" % (pa, pb), pd + p_scalar("der größte gemeinsame Teiler von a und b"), lambda x: x + "\n")
+        add("kgV", "duden kgV %d %d" % (pa, pb), pd + p_scalar("das kleinste gemeinsame Vielfache von a und b"), lambda x: x + "\n")
+        add("teilbar", "duden teilbar %d %d" % (a, pb), "Die Zahl a ist %s.\nDie Zahl b ist %d.\n" % (lit_int(a), pb) + p_scalar("a durch b teilbar ist"), show_bool)
+        z = [2, 3, 4, 12, 97, 360, 1001, 7919, 65536, 999983][rng.below(10)]
+        add("primfaktoren", "duden primfaktoren %d" % z, "Die Zahlen Liste r ist die Primfaktoren von %d.\n" % z + p_list("r"), show_list)
     return out
 
 
